@@ -38,9 +38,15 @@
        (C11_tarjan_components_partial, C11_tarjan_disjoint_partial, C11_tarjan_statistics). *)
 From Coq Require Import List NArith ZArith Bool Arith Permutation.
 From PV Require Import Gen.DepsConst Deps.SccSpec Deps.SccSpecProofs Deps.Tarjan Deps.DepsRun
-  Deps.TarjanProofs Deps.TarjanInv Deps.TarjanBounded Deps.TarjanCorrect Deps.TarjanWf.
+  Deps.TarjanProofs Deps.TarjanInv Deps.TarjanBounded Deps.TarjanCorrect Deps.TarjanWf Tie.DepsTie.
 Import ListNotations.
 Local Open Scope nat_scope.
+
+(* tie to the code: assessCycleSeverity of the model agrees with the decision table the translator evaluated from
+   CircularDependencyDetector.assessCycleSeverity of the current Go source (Gen/DepsTables.v) *)
+Theorem C11_decision_tables : deps_tables_agree = true /\ deps_tables_nonempty = true.
+Proof. exact deps_tables_agree_ok. Qed.
+Print Assumptions C11_decision_tables.
 
 (* the closure used by the specification decides "reachable through imports" *)
 Theorem C11_spec_reach : forall g v w, In v (verts g) -> (In w (reach_set g v) <-> path g v w).
